@@ -25,10 +25,15 @@ CONSTANTS Class,      \* "json" | "simple"
           Ops,        \* names of the enabled actions
           NSlots,     \* 1, or 2 when Copy is enabled
           MaxElems,   \* bound on the number of elements of a grammar
+          MaxAtoms,   \* bound on the number of atoms of a merged type
           MaxDepth    \* bound on the length of the histories
 
-VARIABLE g            \* g[s] : the grammar object in slot s
-vars == <<g>>
+VARIABLES g,          \* g[s] : the grammar object in slot s
+          q,          \* q[s] : which lazily built views of g[s] were requested since its definition was
+                      \*        last edited (val: validated, sch: schema asked).  Path-forming only: it makes
+                      \*        "fill a cache, edit, query again" distinct transitions of the state graph.
+          h           \* number of edit operations so far (queries are not counted)
+vars == <<g, q, h>>
 
 Slots == 1..NSlots
 Ns(n) == "n_" \o n                     \* the harness maps "n_x" to "n:x"
@@ -39,7 +44,7 @@ DefaultValues == {1, 2}
 (* functions as finite maps *)
 Restrict(f, S) == [x \in DOMAIN f \cap S |-> f[x]]
 Without(f, S)  == [x \in DOMAIN f \ S |-> f[x]]
-Override(f, h) == [x \in DOMAIN f \cup DOMAIN h |-> IF x \in DOMAIN h THEN h[x] ELSE f[x]]
+Override(f, f2) == [x \in DOMAIN f \cup DOMAIN f2 |-> IF x \in DOMAIN f2 THEN f2[x] ELSE f[x]]
 Move(f, n, m)  == IF n \in DOMAIN f
                   THEN [x \in (DOMAIN f \ {n}) \cup {m} |-> IF x = m THEN f[n] ELSE f[x]]
                   ELSE f
@@ -97,7 +102,7 @@ MergeOK(T1, T2) == LET T == T1 \cup T2 IN
 --------------------------------------------------------------------------------
 (* the other grammars used by Update / UpdateFromSchema (built by the harness from this description) *)
 Others == <<
-  [elems |-> [a |-> {"Str"}, c |-> {"Int"}], req |-> {"a"},      dflt |-> [c |-> 2]],
+  [elems |-> [a |-> {"Str"}, c |-> {"Int"}], req |-> {"a"},      dflt |-> [a |-> 2, c |-> 2]],
   [elems |-> [b |-> {"Num"}],                req |-> {},         dflt |-> [b |-> 2]],
   [elems |-> [a |-> {"Int"}, b |-> {"Arr"}], req |-> {"a", "b"}, dflt |-> <<>>] >>
 ExclChoices == {{}, {"a"}}
@@ -106,11 +111,19 @@ ExclChoices == {{}, {"a"}}
 Empty == [live |-> FALSE, elems |-> <<>>, req |-> {}, dflt |-> <<>>, toNs |-> <<>>, fromNs |-> <<>>]
 Fresh == [Empty EXCEPT !.live = TRUE]
 
-Init == g = [s \in Slots |-> IF s = 1 THEN Fresh ELSE Empty]
+Cold == [val |-> FALSE, sch |-> FALSE]
+Cached == Class = "json"       \* only JSON grammars build views lazily
+
+Init == /\ g = [s \in Slots |-> IF s = 1 THEN Fresh ELSE Empty]
+        /\ q = [s \in Slots |-> Cold]
+        /\ h = 0
 
 Live(s) == g[s].live
 Dom(s) == DOMAIN g[s].elems
-Set(s, G) == g' = [g EXCEPT ![s] = G]
+Step == h < MaxDepth /\ h' = h + 1
+Set(s, G) == g' = [g EXCEPT ![s] = G] /\ q' = [q EXCEPT ![s] = Cold] /\ Step      \* edit of the definition
+SetKeep(s, G) == g' = [g EXCEPT ![s] = G] /\ UNCHANGED q /\ Step                   \* edit of required/defaults
+Same == UNCHANGED <<g, q>> /\ Step                                                \* rejected operation
 On(op, s) == op \in Ops /\ s \in Slots /\ Live(s)
 Put(G, n, T, m) == IF m /\ n \in DOMAIN G.elems THEN G.elems[n] \cup T ELSE T
 Mergeable(G, n, T, m) == (m /\ n \in DOMAIN G.elems) => MergeOK(G.elems[n], T)
@@ -146,7 +159,7 @@ UpdateFromData(s, n, k, m) ==
 (* SimpleGrammar documents that merging raises; the grammar is left unchanged *)
 RejectMerge(s, n) ==
   /\ On("RejectMerge", s) /\ Class = "simple" /\ n \in Names
-  /\ UNCHANGED g
+  /\ Same
 
 (* update(other, excluded_names, merge): elements, defaults and required names of other but the excluded *)
 Update(s, o, X, m) ==
@@ -180,7 +193,7 @@ RestrictTo(s, S) ==
 (* restrict_to with an unknown name is documented to raise KeyError *)
 RejectRestrict(s, n) ==
   /\ On("RejectRestrict", s) /\ n \in Names \ Dom(s)
-  /\ UNCHANGED g
+  /\ Same
 
 RenameIn(G, n, m) == [G EXCEPT !.elems = Move(G.elems, n, m), !.req = MoveSet(G.req, n, m),
                                !.dflt = Move(G.dflt, n, m)]
@@ -197,7 +210,7 @@ Delete(s, n) ==
 
 RejectDelete(s, n) ==
   /\ On("RejectDelete", s) /\ n \in Names \ Dom(s)
-  /\ UNCHANGED g
+  /\ Same
 
 (* add_namespace(n, "n"): the element is renamed and the two maps record the renaming *)
 AddNamespace(s, n) ==
@@ -209,38 +222,49 @@ AddNamespace(s, n) ==
 Clear(s) == On("Clear", s) /\ Set(s, Fresh)
 
 (* copy(): slot 2 becomes a copy of slot 1 *)
-Copy == "Copy" \in Ops /\ NSlots >= 2 /\ Live(1) /\ Set(2, g[1])
+Copy == /\ "Copy" \in Ops /\ NSlots >= 2 /\ Live(1)
+        /\ g' = [g EXCEPT ![2] = g[1]] /\ q' = [q EXCEPT ![2] = q[1]] /\ Step
 
 (* pickle round trip: the same grammar *)
-Pickle(s) == On("Pickle", s) /\ UNCHANGED g
+Pickle(s) == /\ On("Pickle", s) /\ UNCHANGED g /\ Step
+             /\ q' = [q EXCEPT ![s] = IF Cached THEN [val |-> FALSE, sch |-> TRUE] ELSE Cold]
 
 SetDefault(s, n, v) ==
   /\ On("SetDefault", s) /\ n \in Dom(s) /\ v \in DefaultValues
-  /\ Set(s, [g[s] EXCEPT !.dflt = Override(@, [x \in {n} |-> v])])
+  /\ SetKeep(s, [g[s] EXCEPT !.dflt = Override(@, [x \in {n} |-> v])])
 
 (* a default for a name that is not an element is documented to raise KeyError *)
 RejectDefault(s, n) ==
   /\ On("RejectDefault", s) /\ n \in Names \ Dom(s)
-  /\ UNCHANGED g
+  /\ Same
 
 DelDefault(s, n) ==
   /\ On("DelDefault", s) /\ n \in DOMAIN g[s].dflt
-  /\ Set(s, [g[s] EXCEPT !.dflt = Without(@, {n})])
+  /\ SetKeep(s, [g[s] EXCEPT !.dflt = Without(@, {n})])
 
 Unrequire(s, n) ==
   /\ On("Unrequire", s) /\ n \in g[s].req
-  /\ Set(s, [g[s] EXCEPT !.req = @ \ {n}])
+  /\ SetKeep(s, [g[s] EXCEPT !.req = @ \ {n}])
 
 Require(s, n) ==
   /\ On("Require", s) /\ n \in Dom(s) \ g[s].req
-  /\ Set(s, [g[s] EXCEPT !.req = @ \cup {n}])
+  /\ SetKeep(s, [g[s] EXCEPT !.req = @ \cup {n}])
 
 (* required_names.add of a name that is not an element raises KeyError *)
 RejectRequire(s, n) ==
   /\ On("RejectRequire", s) /\ n \in Names \ Dom(s)
-  /\ UNCHANGED g
+  /\ Same
+
+(* read-only queries: the grammar is unchanged *)
+Query(op, s) == op \in Ops /\ s \in Slots /\ Live(s) /\ UNCHANGED <<g, h>>
+Validate(s) == Query("Validate", s) /\ q' = [q EXCEPT ![s] = IF Cached THEN [val |-> TRUE, sch |-> TRUE] ELSE Cold]
+Schema(s)    == Query("Schema", s) /\ Cached /\ q' = [q EXCEPT ![s].sch = TRUE]
+ToJson(s)    == Query("ToJson", s) /\ Cached /\ UNCHANGED q
+ToSimple(s)  == Query("ToSimple", s) /\ Cached /\ UNCHANGED q
+Repr(s)      == Query("Repr", s) /\ UNCHANGED q
 
 Next ==
+  \/ \E s \in Slots : Validate(s) \/ Schema(s) \/ ToJson(s) \/ ToSimple(s) \/ Repr(s)
   \/ \E s \in Slots, m \in BOOLEAN :
        \/ \E S \in SUBSET Names : UpdateFromNames(s, S, m)
        \/ \E n \in Names, a \in TAtoms : UpdateFromTypes(s, n, a, m)
@@ -259,8 +283,9 @@ Next ==
 
 Spec == Init /\ [][Next]_vars
 
-Bound == /\ TLCGet("level") <= MaxDepth
-         /\ \A s \in Slots : Cardinality(Dom(s)) <= MaxElems
+(* histories of at most MaxDepth edit operations (h), grammars of bounded size *)
+Bound == /\ \A s \in Slots : /\ Cardinality(Dom(s)) <= MaxElems
+                              /\ \A n \in Dom(s) : Cardinality(g[s].elems[n]) <= MaxAtoms
 
 --------------------------------------------------------------------------------
 (* the property *)
@@ -269,6 +294,7 @@ TypeOK == \A s \in Slots : LET G == g[s] IN
   /\ \A n \in DOMAIN G.elems : G.elems[n] # {} /\ G.elems[n] \subseteq Atoms
   /\ \A n \in DOMAIN G.dflt : G.dflt[n] \in DefaultValues
   /\ (~G.live => G = Empty)
+  /\ h \in 0..MaxDepth
 
 (* required names and defaults only refer to existing elements; the namespace maps are mutually       *)
 (* inverse on the existing names                                                                       *)
@@ -283,7 +309,7 @@ WellFormed == \A s \in Slots : WellFormedG(g[s])
 
 (* data is accepted exactly when it contains every required name and every present value has an      *)
 (* allowed type (names that are not elements are ignored)                                              *)
-Validate(G, d) ==
+Accepts(G, d) ==
   /\ G.req \subseteq DOMAIN d
   /\ \A n \in DOMAIN d \cap DOMAIN G.elems : HasType(d[n], G.elems[n])
 
@@ -306,7 +332,7 @@ ProbeData(G) ==
      \cup {Override(B, [x \in {n} |-> k]) : n \in DOMAIN B, k \in Kinds}
      \cup {Override(B, [x \in {ExtraName} |-> k]) : k \in {"int", "dict"}}
      \cup {Override(B, [x \in {n} |-> "str"]) : n \in AllNames \ DOMAIN B}
-Probes(G) == {[d |-> d, ok |-> Validate(G, d)] : d \in ProbeData(G)}
+Probes(G) == {[d |-> d, ok |-> Accepts(G, d)] : d \in ProbeData(G)}
 
 (* JSON -> simple conversion: what the JSON element accepts among the natural python values must be  *)
 (* accepted by the converted element (the converted type itself is the implementation's choice)       *)
